@@ -529,7 +529,7 @@ double Find_Root(std::function<double(double)> func, double xLeft, double xRight
 		std::cerr << "Error in libphysica::Find_Root(): Function returns nan at the brackets." << std::endl;
 		std::exit(EXIT_FAILURE);
 	}
-	else if(fLeft * fRight >= 0.0)
+	else if(!((fLeft < 0.0 && fRight > 0.0) || (fLeft > 0.0 && fRight < 0.0)))	// (Compare the signs, the product fLeft * fRight can underflow to zero.)
 	{
 		if(fLeft == 0)
 			return xLeft;
@@ -556,8 +556,10 @@ double Find_Root(std::function<double(double)> func, double xLeft, double xRight
 			double x3 = (x1 + x2) / 2.0;
 
 			double f3 = func(x3);
-			// New point
-			double x4 = x3 + (x3 - x1) * Sign(f1 - f2) * f3 / sqrt(f3 * f3 - f1 * f2);
+			// New point (The function values are scaled to order one, otherwise f3 * f3 - f1 * f2 under- or overflows for very small or large function values.)
+			double scale = std::max(fabs(f3), std::max(fabs(f1), fabs(f2)));
+			double g1 = f1 / scale, g2 = f2 / scale, g3 = f3 / scale;
+			double x4 = x3 + (x3 - x1) * Sign(g1 - g2) * g3 / sqrt(g3 * g3 - g1 * g2);
 			// Rounding must not push the new point out of the bracket, the function may not be defined there.
 			x4 = std::min(std::max(x4, std::min(x1, x2)), std::max(x1, x2));
 			double f4 = func(x4);
